@@ -46,16 +46,30 @@ const (
 
 var familyName = [...]string{"parent", "With child", "Named child", "Sugar", "IncreaseLevel(warn) child", "WithLazy child"}
 
-// sym is one transition: SetLevel(Lvl) or a log call at Lvl from family member Logger.
+// ways of changing the shared AtomicLevel
+const (
+	waySetLevel  = iota // al.SetLevel(l)
+	wayText             // (&al).UnmarshalText("warn")
+	wayTextUpper        // (&al).UnmarshalText("WARN")
+	wayJSON             // json.Unmarshal into a config struct whose field holds the AtomicLevel
+	wayHTTP             // PUT {"level":"warn"} served by al.ServeHTTP
+	nWays
+)
+
+var wayName = [...]string{"SetLevel", "UnmarshalText", "UnmarshalText(upper case)", "json.Unmarshal(config struct)", "ServeHTTP PUT"}
+
+// sym is one transition: a change of the AtomicLevel to Lvl (by Way) or a log
+// call at Lvl from family member Logger.
 type sym struct {
 	Set    bool `json:"set"`
+	Way    int  `json:"way"`
 	Lvl    int8 `json:"lvl"`
 	Logger int  `json:"logger"`
 }
 
 func (s sym) String() string {
 	if s.Set {
-		return "SetLevel(" + lvlName(s.Lvl) + ")"
+		return wayName[s.Way] + "(" + lvlName(s.Lvl) + ")"
 	}
 	return familyName[s.Logger] + ".log(" + lvlName(s.Lvl) + ")"
 }
@@ -144,7 +158,12 @@ func runSeq(rp *reporter, base *node, s0 int8, seq []sym, st *histStats, states 
 	for i, s := range seq {
 		st.steps++
 		if s.Set {
-			t.setAtomic(s.Lvl)
+			if err := t.changeAtomic(s.Way, s.Lvl); err != nil {
+				i, s := i, s
+				rp.hit("atomic-level-change-refused:"+wayName[s.Way], func() (string, any) {
+					return fmt.Sprintf("base %s, start %s, steps %v: %s failed: %v", base, lvlName(s0), cp(seq[:i+1]), s, err), map[string]any{"part": "histories", "tree": base.String(), "start": s0, "steps": cp(seq[:i+1])}
+				})
+			}
 			f.observe(rp, seq, i+1, st)
 		} else {
 			j, l := s.Logger, s.Lvl
@@ -225,6 +244,26 @@ func partHistories(rp *reporter, thorough bool) *histStats {
 		}
 		return a
 	}()
+	// the other public ways of changing the level: honoured exactly like SetLevel
+	wlevels, wlogs := []int8{lDebug, lWarn, lError}, []int8{lDebug, lInfo, lError}
+	if thorough {
+		wlevels, wlogs = named7, []int8{lDebug, lInfo, lWarn, lError, lFatal}
+	}
+	walpha := func() []sym {
+		var a []sym
+		for w := wayText; w < nWays; w++ {
+			for _, l := range wlevels {
+				a = append(a, sym{Set: true, Way: w, Lvl: l})
+			}
+		}
+		for _, l := range wlogs {
+			for j := 0; j < nFamily; j++ {
+				a = append(a, sym{Lvl: l, Logger: j})
+			}
+		}
+		return a
+	}()
+	rule += fmt.Sprintf("; and all sequences of length 3 over {change the level to each of %d named levels through UnmarshalText (lower and upper case), json.Unmarshal into a config struct holding the AtomicLevel, and an HTTP PUT served by ServeHTTP} + {log at %d levels from each family member} on the same bases and start values: every member must honour the change on its next call exactly as for SetLevel", len(wlevels), len(wlogs))
 	sdepths := []int{3}
 	if thorough {
 		sdepths = []int{3, 4}
@@ -242,6 +281,7 @@ func partHistories(rp *reporter, thorough bool) *histStats {
 	for _, pl := range plans {
 		jobs = append(jobs, job{bases, states8, pl})
 	}
+	jobs = append(jobs, job{bases, states8, plan{3, walpha}})
 	for _, d := range sdepths {
 		jobs = append(jobs, job{sbases, sstates, plan{d, salpha}})
 	}
